@@ -59,9 +59,15 @@ class Session:
                 sa.add(h)
             if sa.check() == z3.unsat:
                 res = Result(full, "proved", "z3(nl-abstracted)", time.time() - t0)
-                if not self.both:
-                    self.results.append(res)
-                    return res
+                if self.both:
+                    # thorough tier: the second back end must not contradict the same (abstracted) query
+                    r2 = self.cvc5_check(sa)
+                    if r2 == "sat":
+                        res = Result(full, "unknown", "z3+cvc5", time.time() - t0, detail="z3 unsat but cvc5 sat on the abstracted query")
+                    elif r2 == "unsat":
+                        res.backend = "z3+cvc5(nl-abstracted)"
+                self.results.append(res)
+                return res
         except z3.Z3Exception:
             pass
         s = z3.Solver()
